@@ -1744,6 +1744,15 @@ def directed_struct_specs():
     e.params = [{"name": "i", "struct": "Inst"}]
     e.result = {"kind": "position"}
     s.entries.append(e)
+    # bool members (only possible behind private / workgroup variables)
+    s = new("bool-private")
+    st(s, "Flags", [("enabled", W.S("bool"), None), ("count", W.S("u32"), None),
+                    ("dirty", W.S("bool"), None)])
+    st(s, "Masks", [("lanes", W.V(4, "bool"), None), ("pair", W.V(2, "bool"), None),
+                    ("list", W.A(W.S("bool"), 3), None), ("inner", W.ST("Flags"), None)])
+    s.globals.append(Global("flags", "private", ty=W.ST("Flags")))
+    s.globals.append(Global("masks", "workgroup", ty=W.ST("Masks")))
+    _compute_entry(s)
     # vec3 packing
     s = new("vec3")
     st(s, "Vec3ThenScalar", [("a", W.V(3, "f32"), None), ("b", W.S("f32"), None),
